@@ -213,7 +213,9 @@ protected:
 		}
 
 		using GetEvent = typename SelectGetEvent<Policies_, EventType_, HasFunctionGetEvent<Policies_, T &&, Args...>::value>::Type;
-		const auto e = GetEvent::getEvent(std::forward<T>(first), args...);
+		// `first` is also an argument for the listeners: don't forward it to getEvent, a policy
+		// taking it by value would move from it.
+		const auto e = GetEvent::getEvent(first, args...);
 		const CallbackList_ * callableList = doFindCallableList(e);
 		if(callableList) {
 			(*callableList)(std::forward<T>(first), std::forward<Args>(args)...);
